@@ -758,5 +758,107 @@ func genBackends(c *ctx) *leanFile {
 	okIds := (neGuard && !eqGuard) || (eqGuard && !neGuard && modeSwitchReturn)
 	l.boolean("reloadIgnoresEmptyIds", neGuard, okIds,
 		"backendStorageStatic.Reload: neither `if backendIds != \"\" {…}` nor `if backendIds == \"\" { if allowAll || allowedUrls != \"\" { return } }` found")
+
+	// ---- which configuration the table is computed from ----
+	// getConfiguredHosts(backendIds, config, commonSecret) turns a configuration into the entries of the table.  Its
+	// two callers (startup, Reload): the call, and for every argument where its value comes from — a parameter of
+	// the caller, or every statement of the caller that assigns it.  "After a reload = after a fresh start" needs
+	// all three to come from the file that is being loaded, in both callers alike; an argument read from the
+	// receiver (a value of an earlier configuration) makes the result depend on the history.
+	callS, defsS, okS := backendsHostsCall(c, staticFile, "", "NewBackendStorageStatic")
+	l.str("startHostsCall", callS, okS, "NewBackendStorageStatic: exactly one call of getConfiguredHosts expected")
+	l.strList("startHostsArgs", defsS, okS, "NewBackendStorageStatic: exactly one call of getConfiguredHosts expected")
+	callR, defsR, okR := backendsHostsCall(c, staticFile, "backendStorageStatic", "Reload")
+	l.str("reloadHostsCall", callR, okR, "backendStorageStatic.Reload: exactly one call of getConfiguredHosts expected")
+	l.strList("reloadHostsArgs", defsR, okR, "backendStorageStatic.Reload: exactly one call of getConfiguredHosts expected")
+	// state of the receiver that Reload reads besides the table, the lock and the compat guard, and what it
+	// writes: `s.<field>` selectors in Reload (not followed into RemoveBackendsForHost / UpsertHost, which get
+	// their input as arguments), verbatim and de-duplicated.
+	var recvReads []string
+	okRecv := false
+	if fd := findFunc(staticFile, "backendStorageStatic", "Reload"); fd != nil && fd.Body != nil && fd.Recv != nil &&
+		len(fd.Recv.List) == 1 && len(fd.Recv.List[0].Names) == 1 {
+		okRecv = true
+		rv := fd.Recv.List[0].Names[0].Name
+		seen := map[string]bool{}
+		ast.Inspect(fd.Body, func(n ast.Node) bool {
+			if se, ok := n.(*ast.SelectorExpr); ok && isIdent(se.X, rv) && !seen[se.Sel.Name] {
+				seen[se.Sel.Name] = true
+				recvReads = append(recvReads, se.Sel.Name)
+			}
+			return true
+		})
+		sort.Strings(recvReads)
+	}
+	l.strList("reloadReceiverFields", recvReads, okRecv, "backendStorageStatic.Reload: method with a named receiver not found")
 	return l
+}
+
+// backendsHostsCall: the single call of getConfiguredHosts in the function and, per argument, where the value
+// comes from ("param:<name> <type>", or the statements of the function that assign the identifier, joined by
+// " ;; "; "expr" for an argument that is not a plain identifier, "?" for an identifier never assigned there).
+func backendsHostsCall(c *ctx, file *ast.File, recv, name string) (string, []string, bool) {
+	norm := func(n ast.Node) string { return strings.Join(strings.Fields(srcText(c.fset, n)), " ") }
+	fd := findFunc(file, recv, name)
+	if fd == nil || fd.Body == nil {
+		return "", nil, false
+	}
+	var call *ast.CallExpr
+	n := 0
+	ast.Inspect(fd.Body, func(x ast.Node) bool {
+		if ce, ok := x.(*ast.CallExpr); ok && isIdent(ce.Fun, "getConfiguredHosts") {
+			call = ce
+			n++
+		}
+		return true
+	})
+	if call == nil || n != 1 {
+		return "", nil, false
+	}
+	var defs []string
+	for _, a := range call.Args {
+		id, ok := a.(*ast.Ident)
+		if !ok {
+			defs = append(defs, "expr")
+			continue
+		}
+		var ds []string
+		if fd.Type.Params != nil {
+			for _, f := range fd.Type.Params.List {
+				for _, pn := range f.Names {
+					if pn.Name == id.Name {
+						ds = append(ds, "param:"+pn.Name+" "+norm(f.Type))
+					}
+				}
+			}
+		}
+		ast.Inspect(fd.Body, func(x ast.Node) bool {
+			switch s := x.(type) {
+			case *ast.AssignStmt:
+				for _, lhs := range s.Lhs {
+					if isIdent(lhs, id.Name) {
+						ds = append(ds, norm(s))
+					}
+				}
+			case *ast.IncDecStmt:
+				if isIdent(s.X, id.Name) {
+					ds = append(ds, norm(s))
+				}
+			case *ast.RangeStmt:
+				if (s.Key != nil && isIdent(s.Key, id.Name)) || (s.Value != nil && isIdent(s.Value, id.Name)) {
+					ds = append(ds, "range")
+				}
+			case *ast.UnaryExpr:
+				if s.Op == token.AND && isIdent(s.X, id.Name) {
+					ds = append(ds, "address-taken")
+				}
+			}
+			return true
+		})
+		if len(ds) == 0 {
+			ds = []string{"?"}
+		}
+		defs = append(defs, strings.Join(ds, " ;; "))
+	}
+	return norm(call), defs, true
 }
